@@ -21,6 +21,7 @@ import (
 	"github.com/semihalev/sdns/internal/contextutil"
 	"github.com/semihalev/sdns/internal/dnsname"
 	"github.com/semihalev/sdns/internal/dnsutil"
+	"github.com/semihalev/sdns/internal/verifhook"
 	"github.com/semihalev/sdns/middleware"
 	"github.com/semihalev/sdns/middleware/resolver/dnssec"
 	"github.com/semihalev/zlog/v2"
@@ -2005,6 +2006,12 @@ func (r *Resolver) exchange(ctx context.Context, rs *resolveState, interrupts *I
 	case pooledConn != nil:
 		// Use the pooled TCP connection.
 		co.Conn = pooledConn.Conn
+	case verifhook.DialActive():
+		co.Conn, err = verifhook.Dial(ctx, proto, dialAddr)
+		if err != nil {
+			ReleaseConn(co)
+			return nil, err
+		}
 	case proto == "udp" && server.UDPAddr != nil && dialAddr == server.Addr:
 		// Fast UDP path: net.DialUDP with pre-parsed addresses skips
 		// DialContext's resolveAddrList + dialParallel + internal
@@ -3348,6 +3355,9 @@ func (r *Resolver) checkPriming() {
 }
 
 func (r *Resolver) run() {
+	if !verifhook.Background() {
+		return
+	}
 	for !middleware.Ready() {
 		// wait middleware setup
 		time.Sleep(50 * time.Millisecond)
